@@ -5,7 +5,7 @@ from .engine_k import bootstrap, rel_close
 
 ID = "C09"
 ENGINE = "K"
-RUNS = {"quick": 1500, "thorough": 40000}
+RUNS = {"quick": 4000, "thorough": 80000}
 BATCH_WALL_CAP = {"quick": 1500, "thorough": 6 * 3600}
 RUN_WALL_CAP = 600
 RECHECK = {"quick": 12, "thorough": 200}
